@@ -143,7 +143,14 @@ func c17Gen(t *rapid.T) c17Case {
 		if rapid.Bool().Draw(t, "sized") {
 			// containers whose declared size is exactly right, followed by trailing bytes (tags, padding)
 			payload := rapid.SliceOfN(rapid.Byte(), 4, 120).Draw(t, "payload")
-			switch rapid.IntRange(0, 2).Draw(t, "container") {
+			switch rapid.IntRange(0, 3).Draw(t, "container") {
+			case 3:
+				// DOS executable with the pointer to the new header (offset 0x3C) inside the file
+				off := rapid.SampledFrom([]int{0x40, 0x80, 0x100, 0x200}).Draw(t, "lfanew")
+				x = make([]byte, off+64)
+				copy(x, "MZ\x90\x00\x03")
+				x[0x3C], x[0x3D] = byte(off), byte(off>>8)
+				copy(x[off:], rapid.SampledFrom([]string{"PE\x00\x00\x4c\x01", "NE\x05\x01", "LE\x00\x00", "LX\x00\x00", "\x00\x00\x00\x00", "W3"}).Draw(t, "newhdr"))
 			case 0:
 				form := rapid.SampledFrom([]string{"WAVEfmt ", "WEBPVP8 ", "AVI LIST", "QLCMfmt "}).Draw(t, "riffform")
 				body := append([]byte(form), payload...)
